@@ -19,20 +19,32 @@ static struct bn_3 bn_pool3[BN_POOL]; static struct bn_4 bn_pool4[BN_POOL]; stat
 static struct bn_6 bn_pool6[BN_POOL]; static struct bn_7 bn_pool7[BN_POOL]; static struct bn_8 bn_pool8[BN_POOL];
 static int bn_used[9];
 int bn_allocs;          /* ghost: number of allocations */
+unsigned long bn_expect_words[8]; int bn_expect_n;   /* optional: expected word count per allocation ordinal */
+sexp verif_reg[24]; int verif_nreg;    /* registered heap objects (prelude, VERIF_KINDFOLD) */
+static inline void verif_register(void *p) { if (verif_nreg < 24) verif_reg[verif_nreg++] = (sexp)p; }
 int bn_pool_exhausted;  /* ghost: set when a pool ran out (bound too small -> obligation) */
 
 /* alloc_plain: a fresh zeroed object of exactly `size` bytes (static storage is zero) */
 static void *bn_alloc(size_t size) {
   __CPROVER_assert(size >= 24 && (size - 24) % 8 == 0 && (size - 24) / 8 <= 8, "alloc.size: bignum allocation size is 24 + 8*len, len <= 8 (harness bound)");
   size_t n = (size - 24) / 8;
+  /* shape fact (assert-then-assume): the harness may list the word count of each allocation in
+     order when the code computes it from a symbolic quantity whose quotient is an instance constant */
+  if (bn_allocs < bn_expect_n) {
+    __CPROVER_assert(n == bn_expect_words[bn_allocs], "alloc.shape: allocation has the word count of the instance");
+    n = bn_expect_words[bn_allocs];
+  }
   bn_allocs++;
   if (n > 8 || bn_used[n] >= BN_POOL) { bn_pool_exhausted = 1; __CPROVER_assume(0); }
   int k = bn_used[n]++;
+  void *r;
   switch (n) {
-  case 0: return &bn_pool0[k]; case 1: return &bn_pool1[k]; case 2: return &bn_pool2[k];
-  case 3: return &bn_pool3[k]; case 4: return &bn_pool4[k]; case 5: return &bn_pool5[k];
-  case 6: return &bn_pool6[k]; case 7: return &bn_pool7[k]; default: return &bn_pool8[k];
+  case 0: r = &bn_pool0[k]; break; case 1: r = &bn_pool1[k]; break; case 2: r = &bn_pool2[k]; break;
+  case 3: r = &bn_pool3[k]; break; case 4: r = &bn_pool4[k]; break; case 5: r = &bn_pool5[k]; break;
+  case 6: r = &bn_pool6[k]; break; case 7: r = &bn_pool7[k]; break; default: r = &bn_pool8[k]; break;
   }
+  verif_register(r);
+  return r;
 }
 
 /* operands: BN_DECL(a, 2) declares a static 2-word bignum `a_obj` and sexp a */
@@ -43,15 +55,18 @@ static void *bn_alloc(size_t size) {
  * constant of the instance; the contract stub of sexp_bignum_hi asserts it and returns the constant */
 sexp bn_known_p[8]; unsigned long bn_known_h[8]; int bn_nknown;
 int bn_nt_expect[8], bn_nt_n, bn_nt_calls;   /* expected operand kinds per call of sexp_number_type */
-static inline void bn_known(sexp p, unsigned long h) { bn_known_p[bn_nknown] = p; bn_known_h[bn_nknown] = h; bn_nknown++; }
+static inline void bn_known(sexp p, unsigned long h) { bn_known_p[bn_nknown] = p; bn_known_h[bn_nknown] = h; bn_nknown++; verif_register(p); }
 
-typedef unsigned __CPROVER_bitvector[704] uwide;   /* 11 words: room for products of 4-word operands and shifts */
-typedef signed __CPROVER_bitvector[704] swide;
+#ifndef BN_WIDE_BITS
+#define BN_WIDE_BITS 704                          /* 11 words: room for products of 4-word operands and shifts */
+#endif
+typedef unsigned __CPROVER_bitvector[BN_WIDE_BITS] uwide;
+typedef signed __CPROVER_bitvector[BN_WIDE_BITS] swide;
 
 static inline uwide bn_mag(sexp x) {       /* sum data[k] * 2^(64k) over ALL length words */
   uwide r = 0;
   unsigned long n = sexp_bignum_length(x);
-  for (unsigned long k = 0; k < n && k < 10; k++)
+  for (unsigned long k = 0; k < n && k < BN_WIDE_BITS / 64 - 1; k++)
     r |= (uwide)sexp_bignum_data(x)[k] << (64 * k);
   return r;
 }
@@ -68,7 +83,7 @@ static inline int bn_wf(sexp x) {          /* representation invariant of a bign
 static inline int bn_canonical(sexp x) {
   if (sexp_fixnump(x)) return 1;
   if (!bn_wf(x)) return 0;
-  swide v = bn_val(x);
-  return v > (swide)SEXP_MAX_FIXNUM || v < (swide)SEXP_MIN_FIXNUM;
+  uwide m = bn_mag(x);   /* magnitude form: no wide negation */
+  return sexp_bignum_sign(x) < 0 ? m > (uwide)SEXP_MAX_FIXNUM + 1 : m > (uwide)SEXP_MAX_FIXNUM;
 }
 #endif
